@@ -16,7 +16,8 @@ What is modelled (read off the source, not what it should do):
   is running).  (`Frame`, `St`, `Ev`, `step`.)
 * `simulators.py` `Simulation.__init__`: the `finally` block as an ordered list of clean-up steps
   (`Step`, generated from the source), including the fact that `self.agents` may not exist yet when the
-  block runs (`agentsEarly`).  The top-level `DynamicScenario` object is shared by all simulations of a
+  block runs (`agentsEarly`), and that `self.destroy()` – code of the simulator interface – is itself a
+  statement of the block and may raise (`runSimD`, `destroyGuarded`).  The top-level `DynamicScenario` object is shared by all simulations of a
   compiled scenario, so its `_overrides` survive from one simulation to the next (`stale`).
 
 Values are integers, objects and properties are numbered.  No Mathlib.
@@ -104,6 +105,7 @@ structure Cfg where
   merge : MergeMode        -- `DynamicScenario._override`
   stopClears : Bool        -- `_stop` forgets the reverted overrides
   agentsEarly : Bool       -- `self.agents` is assigned before the `try` (so the `finally` cannot fail on it)
+  destroyGuarded : Bool    -- the statements after `self.destroy()` run even if it raises (nested `try … finally`)
   deriving Repr
 
 structure St where
@@ -208,6 +210,23 @@ def runSim (cfg : Cfg) (w : World) (stale : Saved) (agentsSet : Bool) (evs : Lis
   let st := run cfg (initSt w stale) evs
   let r := cleanup cfg agentsSet cfg.order st false
   { w := r.1.w, stale := topSaved r.1, ended := r.2 }
+
+/-- The statements of the `finally` block that have completed when `self.destroy()` raises. -/
+def beforeDestroy : List Step → List Step
+  | [] => []
+  | .destroy :: _ => []
+  | s :: rest => s :: beforeDestroy rest
+
+/-- One call of `Simulation.__init__` in which the simulator interface's `destroy()` may itself raise
+    (`destroyFails`; e.g. the connection to the simulator was lost).  `destroy()` is a statement of the `finally`
+    block: unless the rest of the block is protected by a nested `try … finally` (`destroyGuarded`), the
+    exception leaves the block at once and the remaining statements are skipped. -/
+def runSimD (cfg : Cfg) (w : World) (stale : Saved) (agentsSet destroyFails : Bool) (evs : List Ev) : SimResult :=
+  if destroyFails && !cfg.destroyGuarded then
+    let st := run cfg (initSt w stale) evs
+    let r := cleanup cfg agentsSet (beforeDestroy cfg.order) st false
+    { w := r.1.w, stale := topSaved r.1, ended := r.2 }
+  else runSim cfg w stale agentsSet evs
 
 /-- Several simulations of scenes of the same compiled scenario, one after the other, in one process. -/
 def runHist (cfg : Cfg) (w : World) (stale : Saved) : List (Bool × List Ev) → World × Saved
